@@ -2482,7 +2482,7 @@ hwloc__xml_v2export_object (hwloc__xml_export_state_t parentstate, hwloc_topolog
 #define EXPORT_TYPE_GPINDEX_ARRAY(state, nr, objs, tagname, maxperline) do { \
   unsigned _i = 0; \
   while (_i<(nr)) { \
-    char _tmp[255]; /* enough for (snprintf(type+index)+space) x maxperline */ \
+    char _tmp[512]; /* enough for (type name (up to 8 chars) + ':' + 64bit index (up to 20 digits) + space) x maxperline (10) */ \
     char _tmp2[16]; \
     size_t _len = 0; \
     unsigned _j; \
